@@ -96,6 +96,7 @@ class Python2VerilogTranspiler:
         node = wiresAndVars.visit(node)
         node = ReplaceConstant().visit(node)
         node = ReplaceAssign().visit(node)
+        node = ReplaceDocStrings().visit(node)
  
         node.wires.variables = wiresAndVars.variables.values();
         # node = FlattenOperators().visit(node)
